@@ -47,14 +47,32 @@ def canon_exc(ex):
     return "err %s" % type(ex).__name__
 
 
+STREAM_PREFIX = "#junk\n  0000-00-00T00:00 \r\n"     # what a partially consumed stream has already delivered
+
+
+def is_bytes_kind(kind):
+    """bytes and byte streams skip the ASCII gate"""
+    return kind.startswith("b")
+
+
 def wrap_input(s, kind):
-    """s: str (or bytes for kind 'rawbytes'); kind: str | bytes | stream"""
+    """s: str (or bytes); kind: str | bytes | stream | bstream | stream@k | bstream@k
+    (`@k`: a stream that has already delivered k characters / bytes: position != 0)"""
     if kind == "str":
         return s
+    raw = s.encode("utf-8") if isinstance(s, str) else s
     if kind == "bytes":
-        return s.encode("utf-8") if isinstance(s, str) else s
-    if kind == "stream":
-        return io.StringIO(s)
+        return raw
+    base, _, k = kind.partition("@")
+    k = int(k) if k else 0
+    if base == "stream":
+        f = io.StringIO(STREAM_PREFIX[:k] + s)
+        f.read(k)
+        return f
+    if base == "bstream":
+        f = io.BytesIO(STREAM_PREFIX[:k].encode("ascii") + raw)
+        f.read(k)
+        return f
     raise ValueError(kind)
 
 
@@ -111,11 +129,11 @@ def sep_arg(sep):
 
 def line_parse(sep, s, kind="str"):
     """driver request for the model; s is str (str/stream input) or bytes"""
-    return "iso.parse %s %s%s" % (sep_arg(sep), vlib.hexs(s), " b" if kind == "bytes" or isinstance(s, bytes) else "")
+    return "iso.parse %s %s%s" % (sep_arg(sep), vlib.hexs(s), " b" if is_bytes_kind(kind) or isinstance(s, bytes) else "")
 
 
 def entry_line(entry, s, sep=None, zero=True, kind="str"):
-    b = " b" if kind == "bytes" or isinstance(s, bytes) else ""
+    b = " b" if is_bytes_kind(kind) or isinstance(s, bytes) else ""
     if entry == "isoparse":
         return line_parse(sep, s, kind)
     if entry == "date":
@@ -252,7 +270,7 @@ def gen_offset(rng):
     return rng.random() < 0.5, oh, om
 
 
-SEPARATORS = [84, 32, 116, 95, 45, 58, 90, 43, 87, 46, 44, 122, 47, 64, 0, 127, 65, 200]   # T space t _ - : Z + W . , z / @ NUL DEL A
+SEPARATORS = [84, 32, 116, 95, 45, 58, 90, 43, 87, 46, 44, 122, 47, 64, 0, 127, 65, 200, 10, 13, 9]   # ... é-range byte, LF, CR, TAB   # T space t _ - : Z + W . , z / @ NUL DEL A
 
 
 def fingerprint():
@@ -282,7 +300,7 @@ def check_fingerprint(ctx):
 
 
 # ---- mutation stream (C20; a sample of it is reused by C07 for the recognised => parsed direction)
-ALPHABET = list("0123456789-:.,TWZz+ _") + ["t", "a", "/", "é"]
+ALPHABET = list("0123456789-:.,TWZz+ _") + ["t", "a", "/", "é", "\n"]
 SHORT_ALPHABET = list("01259-:.TWZ+")
 
 
@@ -382,7 +400,8 @@ def impl_digits(b, w):
 def gen_requests(entry, sep, zero, kind, s):
     """(driver request for the translated function, implementation result) or None"""
     if entry == "isoparse":
-        return "isogen.parse %s %s%s" % (sep_arg(sep), vlib.hexs(s), " b" if kind == "bytes" else ""), None
+        tok = {"str": "", "bytes": " b", "stream": " s", "bstream": " sb"}[kind.partition("@")[0]]
+        return "isogen.parse %s %s%s" % (sep_arg(sep), vlib.hexs(s), tok), None
     try:
         b = s.encode("ascii") if isinstance(s, str) else s
     except UnicodeEncodeError:
@@ -439,3 +458,21 @@ def validate_translation(ctx, items, impl_results):
                                         "string": tag[4], "request": q}, e, g)
     ctx.traces += len(reqs)
     ctx.count("translator_validation_cases", len(reqs))
+
+
+ALL_KINDS = ["str", "bytes", "stream", "bstream", "stream@7", "bstream@3", "stream@%d" % len(STREAM_PREFIX)]
+WHITESPACE_VARIANTS = [lambda s: s + "\n", lambda s: "\n" + s, lambda s: " " + s, lambda s: s + " ", lambda s: s + "\r\n",
+                       lambda s: s.replace("T", "\n", 1), lambda s: s.replace("T", "\r\n", 1), lambda s: "\t" + s + "\t"]
+
+
+def kinds_agree(entry, s, sep=None, zero=True, kinds=ALL_KINDS):
+    """the entry point's result for the same text through every input kind -> (dict kind->result, all equal?)
+    (non-ASCII text: the byte kinds legitimately differ, they skip the ASCII gate)"""
+    res = {k: entry_impl(entry, s, sep, zero, k) for k in kinds}
+    ascii_only = (not isinstance(s, str)) or s.isascii()
+    vals = set(res.values()) if ascii_only else \
+        (set(v for k, v in res.items() if not is_bytes_kind(k)) | set()) 
+    ok = len(vals) == 1
+    if not ascii_only:
+        ok = ok and len(set(v for k, v in res.items() if is_bytes_kind(k))) == 1
+    return res, ok
